@@ -367,6 +367,12 @@ func instrumentFile(p *packages.Package, f *ast.File, fe *fileEdits) {
 				insertBefore(x, "R7")
 				return true
 			}
+			// R9: long computations in the certificate authority (key generation, signing): a real
+			// scheduler preempts a goroutine there, so another tunnel's issuance can run in between
+			if isR9(p.PkgPath, full) {
+				insertBefore(x, "R9")
+				return true
+			}
 		case *ast.GoStmt:
 			rewriteGo(p, fe, x)
 			// still descend: the body of a go func literal has its own sites
@@ -457,6 +463,18 @@ func isR6(obj *types.Func, full string) bool {
 		case "Read", "Stage", "CommitStaged", "Overwrite":
 			return true
 		}
+	}
+	return false
+}
+
+func isR9(pkg, full string) bool {
+	if pkg != "reservoir/proxy/certs" {
+		return false
+	}
+	switch full {
+	case "crypto/ecdsa.GenerateKey", "crypto/rsa.GenerateKey", "crypto/rand.Int", "crypto/x509.CreateCertificate", "crypto/x509.MarshalPKCS8PrivateKey",
+		"crypto/tls.X509KeyPair", "crypto/x509.ParseCertificate":
+		return true
 	}
 	return false
 }
